@@ -679,6 +679,10 @@ def methods_of(cn):
                M_('det()', 'det', lambda x: x.det()), M_('log()', 'log', lambda x: x.log(), 'acc_map_unwrap'),
                M_('log(twist=True)', 'log', lambda x: x.log(twist=True), 'acc_map_unwrap'),
                M_('norm()', 'norm', lambda x: x.norm(), 'acc_map')]
+    if cn == 'SO2':
+        ms += [M_('SE2()', 'SE2', lambda x: x.SE2())]                       # one SE2 per value since fix eb56988
+    if cn == 'SO3':
+        ms += [M_('SE3.SO3(X)', 'SE3.SO3', lambda x: SE3.SO3(x))]           # classmethod of SE3, per value of its SO3 argument since fix d6fb3fc
     if cn in ('SE2', 'SE3'):
         ms += [M_('t', 't', lambda x: x.t)]
     if cn in ('SO2', 'SE2'):
@@ -703,7 +707,7 @@ def methods_of(cn):
         ms += [M_('s', 's', lambda x: x.s), M_('v', 'v', lambda x: x.v), M_('vec', 'vec', lambda x: x.vec),
                M_('conj()', 'conj', lambda x: x.conj(), 'acc_map'), M_('norm()', 'norm', lambda x: x.norm()),
                M_('unit()', 'unit', lambda x: x.unit(), 'acc_map'), M_('-x', '__neg__', lambda x: -x, 'acc_map'),
-               M_('log()', 'log', lambda x: x.log()), M_('exp()', 'exp', lambda x: x.exp(), None, 'census'),
+               M_('log()', 'log', lambda x: x.log()), M_('exp()', 'exp', lambda x: x.exp()),            # maps over the values since fix 0242ef3
                M_('matrix', 'matrix', lambda x: x.matrix)]        # branches on len(self) == 1 since fix 66f9b8b
     if cn == 'UnitQuaternion':
         ms += [M_('inv()', 'inv', lambda x: x.inv(), 'acc_map'), M_('R', 'R', lambda x: x.R), M_('SO3()', 'SO3', lambda x: x.SO3()),
@@ -787,6 +791,7 @@ REPAIRED_SITES = {'SMTwist.unit': 'SMTwist.unit[seq-branch-4908bfb]', 'Twist2.un
                   'Twist3.pole': 'Twist3.pole[seq-branch-a77df5a]',
                   'Twist3.exp': 'Twist3.exp[seq-branch-3804c67]', 'Twist3.SE3': 'Twist3.SE3[seq-branch-3804c67]',
                   'Twist2.exp': 'Twist2.exp[seq-branch-3804c67]', 'Twist2.SE2': 'Twist2.SE2[seq-branch-3804c67]',
+                  'Quaternion.exp': 'Quaternion.exp[seq-branch-0242ef3]', 'SO2.SE2': 'SO2.SE2[seq-branch-eb56988]', 'SE3.SO3': 'SE3.SO3[seq-branch-d6fb3fc]',
                   'Twist3.exp(theta-vector)': 'Twist3.exp(theta-vector)[3804c67]', 'Twist2.exp(theta-vector)': 'Twist2.exp(theta-vector)[3804c67]'}
 
 
@@ -800,7 +805,7 @@ def method_grid_pool(ctx, MT, census_out=None):
     for cn in CLASSES:
         A = [elem(cn, rng) for _ in range(NMAX)]
         for label, attr, f, shape, cat in methods_of(cn):
-            site = f"{definer(cn, attr)}.{attr}"
+            site = attr if '.' in attr else f"{definer(cn, attr)}.{attr}"
             site = REPAIRED_SITES.get(site, site)
             what = f"{cn}.{label}" + (f" (defined by {site})" if not site.startswith(cn + '.') else '')
             X5 = mk(cn, A)
@@ -904,18 +909,18 @@ def interp_grid(ctx, MT):
                     else:
                         obs = ('err', exn_name(res[1]))
                     cell = '1x1' if (m, k) == (1, 1) else '1xK' if m == 1 else 'Mx1' if k == 1 else 'MxK'
-                    ckey = cell + '[vector-s-51bc88a]' if site == 'UnitQuaternion.interp' and cell in ('1x1', '1xK') else cell
+                    ckey = cell + ('[vector-s-51bc88a]' if cell in ('1x1', '1xK') else '[multi-7443e8d]' if cell == 'Mx1' else '') if site == 'UnitQuaternion.interp' else cell
                     if cell != 'MxK' and obs[0] != 'ok':
                         # the property: one value x vector of s -> K results; M values x one s -> M results
                         ctx.fail(f'oracle:interp:{site}:{ckey}:' + (f'err:{obs[1]}' if obs[0] == 'err' else 'wrong-result'), f"{cn}.interp on an object holding {m} values with s holding {k} "
                                  f"value(s) ({form}) gives {obs} instead of {blen(m, k)} results equal to the single-valued interpolations",
                                  dict(replay, observed=str(obs)))
-                    if site == 'SMPose.interp':
+                    if site in ('SMPose.interp', 'UnitQuaternion.interp'):     # UnitQuaternion.interp has the same three cases since fix 7443e8d
                         mod = parse_model(MT[('interp', m, k)])
                         ctx.corr['cases'] += 1
                         if mod != obs:
                             ctx.corr['disagreements'] += 1
-                            ctx.fail('corr:SMPose.interp', f"{cn}.interp: {m} values, s of {k}: the hand model pose_interp gives {mod}, the implementation {obs}",
+                            ctx.fail('corr:' + site, f"{cn}.interp: {m} values, s of {k}: the hand model pose_interp gives {mod}, the implementation {obs}",
                                      dict(replay, model=str(mod), observed=str(obs)))
 
 
